@@ -14,6 +14,10 @@ Core Lean only (generated kernels may be linked into a compiled driver).
 -/
 namespace AdaptaVerif.Gen
 
+/-- a `std::vector<T*>` whose element `i` is the object with id `i` (so that a pointer is modelled by its index):
+    only its size is left; `v[i]` = `i` with the obligation `i < v` -/
+abbrev IdArray := Nat
+
 /-- `a[i]` (read) -/
 def aget {α : Type} [Inhabited α] (a : Array α) (i : Nat) : α := a.getD i default
 /-- `a[i] = x` -/
